@@ -1,28 +1,53 @@
 (* C03 — the table-driven ANTLR-style parser (Model/C03_prec.v) reads back what the specification
    printer (Lib/C03_spec.v) prints, up to the `resign` normal form (theorems `roundtrip`,
-   `roundtrip_fuel`; if-expressions included, no side condition besides `wf`). *)
+   `roundtrip_fuel`; calls, if/elseif, the standard listener table; no side condition besides `wf`). *)
 From Coq Require Import List Arith Lia Bool.
 From PV Require Import Model.C03_prec Lib.C03_spec.
 Import ListNotations.
 Local Open Scope nat_scope.
 
-Definition pbin_spec (s : sym) : option nat :=
-  if is_binop s && negb (is_pow s) then Some (blev s) else None.
-Definition ppre_spec (s : sym) : option nat :=
-  match s with SNot => Some 4 | SPlus | SMinus => Some 9 | _ => None end.
+Definition blabel (s : sym) : label :=
+  match s with
+  | SMul | SDiv | SEMul | SEDiv => LMul
+  | SPlus | SMinus | SEPlus | SEMinus => LAdd
+  | SLt | SLe | SGt | SGe | SEq | SNe => LRel
+  | SAnd => LAnd | SOr => LOr
+  | _ => LPrimary
+  end.
+Definition pbin_spec (s : sym) : option (nat * label) :=
+  if is_binop s && negb (is_pow s) then Some (blev s, blabel s) else None.
+Definition ppre_spec (s : sym) : option (nat * label) :=
+  match s with SNot => Some (4, LNot) | SPlus | SMinus => Some (9, LSigned) | _ => None end.
+Definition ppow_spec (s : sym) : option label := if is_pow s then Some LExp else None.
 
 Lemma pbin_g4 s : pbin g4 s = pbin_spec s.
 Proof. destruct s; reflexivity. Qed.
 Lemma ppre_g4 s : ppre g4 s = ppre_spec s.
 Proof. destruct s; reflexivity. Qed.
-Lemma ppow_g4 s : ppow g4 s = is_pow s.
+Lemma ppow_g4 s : ppow g4 s = ppow_spec s.
 Proof. destruct s; reflexivity. Qed.
 
-Lemma opt_nat_eqb_eq a b : opt_nat_eqb a b = true -> a = b.
+Lemma label_eqb_eq a b : label_eqb a b = true -> a = b.
+Proof. destruct a, b; cbn; try discriminate; reflexivity. Qed.
+Lemma opt_nl_eqb_eq a b : opt_nl_eqb a b = true -> a = b.
 Proof.
-  destruct a, b; cbn; try discriminate; auto.
-  intros H. apply Nat.eqb_eq in H. congruence.
+  destruct a as [[x l]|], b as [[y m]|]; cbn; try discriminate; auto.
+  intros H. apply andb_true_iff in H. destruct H as [H1 H2].
+  apply Nat.eqb_eq in H1. apply label_eqb_eq in H2. congruence.
 Qed.
+Lemma opt_l_eqb_eq a b : opt_l_eqb a b = true -> a = b.
+Proof.
+  destruct a as [l|], b as [m|]; cbn; try discriminate; auto.
+  intros H. apply label_eqb_eq in H. congruence.
+Qed.
+
+(* the standard listener table builds the plain nodes *)
+Lemma rev_std l : rev_of std_lt l = false.
+Proof. destruct l; reflexivity. Qed.
+Lemma build_bin_std l s a b : op_of std_lt l s = s -> build_bin std_lt l s a b = Bin s a b.
+Proof. intros H. unfold build_bin. rewrite rev_std, H. reflexivity. Qed.
+Lemma build_un_std l s e : op_of std_lt l s = s -> build_un std_lt l s e = Un s e.
+Proof. intros H. unfold build_un. rewrite H. reflexivity. Qed.
 
 Definition ext (f g : mode -> list tok -> R) : Prop :=
   forall m ts r, f m ts = Some r -> g m ts = Some r.
@@ -37,16 +62,20 @@ Section Proof.
     pose proof Htab as H. unfold tab_ok in H. rewrite forallb_forall in H.
     assert (I0 : In s all_syms) by (destruct s; cbn; tauto).
     apply H in I0. rewrite !andb_true_iff in I0. destruct I0 as [[A B] C].
-    apply opt_nat_eqb_eq in A. apply opt_nat_eqb_eq in B. apply eqb_prop in C. auto.
+    apply opt_nl_eqb_eq in A. apply opt_nl_eqb_eq in B. apply opt_l_eqb_eq in C. auto.
   Qed.
   Lemma pbin_t s : pbin t s = pbin_spec s.
   Proof. rewrite <- pbin_g4. apply tab_facts. Qed.
   Lemma ppre_t s : ppre t s = ppre_spec s.
   Proof. rewrite <- ppre_g4. apply tab_facts. Qed.
-  Lemma ppow_t s : ppow t s = is_pow s.
+  Lemma ppow_t s : ppow t s = ppow_spec s.
   Proof. rewrite <- ppow_g4. apply tab_facts. Qed.
-  Lemma pbin_le7 s p : pbin t s = Some p -> p <= 7.
-  Proof. rewrite pbin_t. destruct s; cbn; intros H; inversion H; lia. Qed.
+  Lemma pbin_le7 s p l : pbin t s = Some (p, l) -> p <= 7.
+  Proof. rewrite pbin_t. destruct s; intros H; cbv in H; inversion H; lia. Qed.
+  Lemma pbin_op s p l : pbin t s = Some (p, l) -> op_of std_lt l s = s.
+  Proof. rewrite pbin_t. destruct s; intros H; cbv in H; inversion H; reflexivity. Qed.
+  Lemma ppre_op s p l : ppre t s = Some (p, l) -> op_of std_lt l s = s.
+  Proof. rewrite ppre_t. destruct s; intros H; cbv in H; inversion H; reflexivity. Qed.
 
   (* ---- STEP 1: fuel monotonicity ---- *)
   Ltac mono_tac f H :=
@@ -60,23 +89,21 @@ Section Proof.
           destruct (f m ts) as [[[?|?] ?]|] eqn:E;
           [rewrite (H _ _ _ E) | rewrite (H _ _ _ E) | ]
       | Hs : context[match ?x with _ => _ end] |- _ => is_var x; destruct x
-      | Hs : context[match ppre t ?s with _ => _ end] |- _ => destruct (ppre t s)
-      | Hs : context[match pbin t ?s with _ => _ end] |- _ => destruct (pbin t s)
-      | Hs : context[if ?b then _ else _] |- _ => destruct b
+      | Hs : context[match ?x with _ => _ end] |- _ => destruct x
       end).
 
-  Lemma step_mono f g : ext f g -> ext (step t f) (step t g).
+  Lemma step_mono f g : ext f g -> ext (step t std_lt f) (step t std_lt g).
   Proof.
     intros H m ts r Hs. destruct m; unfold step in *; mono_tac f H.
   Qed.
 
-  Lemma run_ext f : ext (run t f) (run t (S f)).
+  Lemma run_ext f : ext (run t std_lt f) (run t std_lt (S f)).
   Proof.
     induction f as [|f IH].
     - intros m ts r H. discriminate H.
-    - change (ext (step t (run t f)) (step t (run t (S f)))). apply step_mono, IH.
+    - change (ext (step t std_lt (run t std_lt f)) (step t std_lt (run t std_lt (S f)))). apply step_mono, IH.
   Qed.
-  Lemma run_mono f g : f <= g -> ext (run t f) (run t g).
+  Lemma run_mono f g : f <= g -> ext (run t std_lt f) (run t std_lt g).
   Proof.
     induction 1 as [|g Hle IH].
     - intros m ts r H; exact H.
@@ -84,17 +111,17 @@ Section Proof.
   Qed.
 
   Definition Run (m : mode) (ts : list tok) (res : res * list tok) : Prop :=
-    exists f, run t f m ts = Some res.
+    exists f, run t std_lt f m ts = Some res.
 
   Lemma Run2 m1 ts1 r1 m2 ts2 r2 : Run m1 ts1 r1 -> Run m2 ts2 r2 ->
-    exists f, run t f m1 ts1 = Some r1 /\ run t f m2 ts2 = Some r2.
+    exists f, run t std_lt f m1 ts1 = Some r1 /\ run t std_lt f m2 ts2 = Some r2.
   Proof.
     intros [f1 A] [f2 B]. exists (max f1 f2). split.
     - apply (run_mono f1); [lia|exact A].
     - apply (run_mono f2); [lia|exact B].
   Qed.
   Lemma Run3 m1 ts1 r1 m2 ts2 r2 m3 ts3 r3 : Run m1 ts1 r1 -> Run m2 ts2 r2 -> Run m3 ts3 r3 ->
-    exists f, run t f m1 ts1 = Some r1 /\ run t f m2 ts2 = Some r2 /\ run t f m3 ts3 = Some r3.
+    exists f, run t std_lt f m1 ts1 = Some r1 /\ run t std_lt f m2 ts2 = Some r2 /\ run t std_lt f m3 ts3 = Some r3.
   Proof.
     intros A [f2 B] [f3 C]. destruct (Run2 _ _ _ _ _ _ A (ex_intro _ f2 B)) as [f [A' B']].
     exists (max f f3). repeat split.
@@ -103,7 +130,7 @@ Section Proof.
     - apply (run_mono f3); [lia|exact C].
   Qed.
 
-  Ltac unf f := exists (S f); change (run t (S f)) with (step t (run t f)); unfold step; cbv beta iota.
+  Ltac unf f := exists (S f); change (run t std_lt (S f)) with (step t std_lt (run t std_lt f)); unfold step; cbv beta iota.
 
   Lemma Run_primary_atom a rest :
     match rest with TLp :: _ => False | _ => True end ->
@@ -117,7 +144,7 @@ Section Proof.
     Run MExpression r (RE e, TRp :: r') -> Run MPrimary (TLp :: r) (RE e, r').
   Proof. intros [f H]. unf f. rewrite H. reflexivity. Qed.
 
-  Lemma no_if_expr f lvl r res : run t f (MExpr lvl) (TIf :: r) = Some res -> False.
+  Lemma no_if_expr f lvl r res : run t std_lt f (MExpr lvl) (TIf :: r) = Some res -> False.
   Proof.
     destruct f as [|[|f]]; discriminate.
   Qed.
@@ -129,84 +156,89 @@ Section Proof.
     exfalso. eapply no_if_expr, H.
   Qed.
 
-  Lemma Run_expr_prefix s p lvl r res :
-    ppre t s = Some p ->
+  Lemma Run_expr_prefix s p l lvl r res :
+    ppre t s = Some (p, l) ->
     (exists x0 rem, Run (MExpr p) r (RE x0, rem) /\ Run (MLoop lvl (Un s x0)) rem res) ->
     Run (MExpr lvl) (TSym s :: r) res.
   Proof.
     intros Hp (x0 & rem & A & B). destruct (Run2 _ _ _ _ _ _ A B) as [f [A' B']].
-    unf f. rewrite Hp, A'. exact B'.
+    unf f. rewrite Hp, A'. rewrite (build_un_std _ _ _ (ppre_op _ _ _ Hp)). exact B'.
   Qed.
 
   Definition nopow (r : list tok) : Prop :=
     match r with TSym s :: _ => is_pow s = false | _ => True end.
 
-  Lemma prim_not_sym f s r res : run t f MPrimary (TSym s :: r) = Some res -> False.
+  Lemma prim_not_sym f s r res : run t std_lt f MPrimary (TSym s :: r) = Some res -> False.
   Proof. destruct f; discriminate. Qed.
 
   Lemma Run_expr_prim lvl ts a r res :
     Run MPrimary ts (RE a, r) -> nopow r -> Run (MLoop lvl a) r res -> Run (MExpr lvl) ts res.
   Proof.
     intros A Hn B. destruct (Run2 _ _ _ _ _ _ A B) as [f [A' B']].
-    assert (G : match run t f MPrimary ts with
+    assert (G : match run t std_lt f MPrimary ts with
                 | Some (RE a, TSym s :: r) =>
-                    if ppow t s then
-                      match run t f MPrimary r with
-                      | Some (RE b, r') => run t f (MLoop lvl (Bin s a b)) r'
+                    match ppow t s with
+                    | Some l =>
+                      match run t std_lt f MPrimary r with
+                      | Some (RE b, r') => run t std_lt f (MLoop lvl (build_bin std_lt l s a b)) r'
                       | _ => None
                       end
-                    else run t f (MLoop lvl a) (TSym s :: r)
-                | Some (RE a, r) => run t f (MLoop lvl a) r
+                    | None => run t std_lt f (MLoop lvl a) (TSym s :: r)
+                    end
+                | Some (RE a, r) => run t std_lt f (MLoop lvl a) r
                 | _ => None
                 end = Some res).
     { rewrite A'. destruct r as [|[] r0]; try exact B'.
-      cbn in Hn. rewrite ppow_t, Hn. exact B'. }
+      cbn in Hn. rewrite ppow_t. unfold ppow_spec. rewrite Hn. exact B'. }
     destruct ts as [|k ts']; [unf f; exact G|].
     destruct k; try (unf f; exact G).
     exfalso. eapply prim_not_sym, A'.
   Qed.
 
   Lemma Run_expr_pow lvl ts a s r b r' res :
-    Run MPrimary ts (RE a, TSym s :: r) -> ppow t s = true -> Run MPrimary r (RE b, r') ->
+    Run MPrimary ts (RE a, TSym s :: r) -> is_pow s = true -> Run MPrimary r (RE b, r') ->
     Run (MLoop lvl (Bin s a b)) r' res -> Run (MExpr lvl) ts res.
   Proof.
     intros A Hp B C. destruct (Run3 _ _ _ _ _ _ _ _ _ A B C) as [f (A' & B' & C')].
-    assert (G : match run t f MPrimary ts with
+    assert (G : match run t std_lt f MPrimary ts with
                 | Some (RE a, TSym s :: r) =>
-                    if ppow t s then
-                      match run t f MPrimary r with
-                      | Some (RE b, r') => run t f (MLoop lvl (Bin s a b)) r'
+                    match ppow t s with
+                    | Some l =>
+                      match run t std_lt f MPrimary r with
+                      | Some (RE b, r') => run t std_lt f (MLoop lvl (build_bin std_lt l s a b)) r'
                       | _ => None
                       end
-                    else run t f (MLoop lvl a) (TSym s :: r)
-                | Some (RE a, r) => run t f (MLoop lvl a) r
+                    | None => run t std_lt f (MLoop lvl a) (TSym s :: r)
+                    end
+                | Some (RE a, r) => run t std_lt f (MLoop lvl a) r
                 | _ => None
                 end = Some res).
-    { rewrite A', Hp, B'. exact C'. }
+    { rewrite A', ppow_t. unfold ppow_spec. rewrite Hp, B'. exact C'. }
     destruct ts as [|k ts']; [unf f; exact G|].
     destruct k; try (unf f; exact G).
     exfalso. eapply prim_not_sym, A'.
   Qed.
 
-  Lemma Loop_step lvl acc s p r e2 r' res :
-    pbin t s = Some p -> lvl <= p -> Run (MExpr (S p)) r (RE e2, r') ->
+  Lemma Loop_step lvl acc s p l r e2 r' res :
+    pbin t s = Some (p, l) -> lvl <= p -> Run (MExpr (S p)) r (RE e2, r') ->
     Run (MLoop lvl (Bin s acc e2)) r' res -> Run (MLoop lvl acc) (TSym s :: r) res.
   Proof.
     intros Hp Hl A B. destruct (Run2 _ _ _ _ _ _ A B) as [f [A' B']].
-    unf f. rewrite Hp. destruct (Nat.leb_spec lvl p); [|lia]. rewrite A'. exact B'.
+    unf f. rewrite Hp. destruct (Nat.leb_spec lvl p); [|lia]. rewrite A'.
+    rewrite (build_bin_std _ _ _ _ (pbin_op _ _ _ Hp)). exact B'.
   Qed.
 
   Definition head_le (p : nat) (rest : list tok) : Prop :=
     match rest with
-    | TSym s :: _ => match pbin t s with Some p' => p' <= p | None => True end
+    | TSym s :: _ => match pbin t s with Some (p', _) => p' <= p | None => True end
     | _ => True
     end.
 
   Lemma Loop_stop_le p lvl acc rest : head_le p rest -> p < lvl -> Run (MLoop lvl acc) rest (RE acc, rest).
   Proof.
-    intros H Hl. exists 1. change (run t 1) with (step t (run t 0)). unfold step. cbv beta iota.
+    intros H Hl. exists 1. change (run t std_lt 1) with (step t std_lt (run t std_lt 0)). unfold step. cbv beta iota.
     destruct rest as [|[] r]; try reflexivity.
-    cbn in H. destruct (pbin t s); [|reflexivity].
+    cbn in H. destruct (pbin t s) as [[n l]|]; [|reflexivity].
     destruct (Nat.leb_spec lvl n); [lia|reflexivity].
   Qed.
   Lemma Loop_stop_rp lvl acc rest : Run (MLoop lvl acc) (TRp :: rest) (RE acc, TRp :: rest).
@@ -215,10 +247,10 @@ Section Proof.
   Proof. exists 1. reflexivity. Qed.
   Lemma head_le_7 rest : head_le 7 rest.
   Proof.
-    destruct rest as [|[] r]; cbn; auto. destruct (pbin t s) eqn:E; auto. eapply pbin_le7; eauto.
+    destruct rest as [|[] r]; cbn; auto. destruct (pbin t s) as [[n l]|] eqn:E; auto. eapply pbin_le7; eauto.
   Qed.
   Lemma head_le_mono p p' rest : p <= p' -> head_le p rest -> head_le p' rest.
-  Proof. destruct rest as [|[] r]; cbn; auto. destruct (pbin t s); auto. lia. Qed.
+  Proof. destruct rest as [|[] r]; cbn; auto. destruct (pbin t s) as [[n l]|]; auto. lia. Qed.
   Lemma Loop_stop_hi lvl acc rest : 8 <= lvl -> Run (MLoop lvl acc) rest (RE acc, rest).
   Proof. intros. apply (Loop_stop_le 7); [apply head_le_7|lia]. Qed.
 
@@ -244,12 +276,13 @@ Section Proof.
     | SAtom _ | SPar _ => true
     | SUn o _ => negb (q <=? ulev o)
     | SBin o _ _ => negb (q <=? blev o)
-    | SIf _ _ _ => negb (q <=? 1)
+    | SIf _ _ _ _ => negb (q <=? 1)
+    | SCall _ _ => true
     end.
 
   (* an if-expression is printed bare only in `expression` positions (q <= 1) *)
   Definition ifok (q : nat) (e : sexpr) : Prop :=
-    match e with SIf _ _ _ => 2 <= q | _ => True end.
+    match e with SIf _ _ _ _ => 2 <= q | _ => True end.
   (* what may follow an `expression`: anything but an operator or '(' *)
   Definition closing (rest : list tok) : Prop :=
     match rest with TSym _ :: _ => False | TLp :: _ => False | _ => True end.
@@ -293,7 +326,7 @@ Section Proof.
       destruct o; cbn [ulev is_sign] in *; try discriminate; lia.
     - destruct (is_pow o); auto. intros Hq. eapply head_le_mono; [|exact Hh]. lia.
   Qed.
-  Lemma top_ok_sym q e o p rest : pbin t o = Some p -> p <= q -> p <> 4 -> top_ok q e (TSym o :: rest).
+  Lemma top_ok_sym q e o p l rest : pbin t o = Some (p, l) -> p <= q -> p <> 4 -> top_ok q e (TSym o :: rest).
   Proof.
     intros Hp Hq H4. destruct e; cbn [top_ok head_le]; auto.
     - destruct (is_sign o0) eqn:Hs; auto. intros Hu. rewrite Hp.
@@ -403,7 +436,7 @@ Section Proof.
     - apply Expr_of_Main; [intros; exact I | exact HM].
   Qed.
 
-  Lemma sign_facts o : is_sign o = true -> ulev o = 6 /\ uq o = 7 /\ ppre t o = Some 9.
+  Lemma sign_facts o : is_sign o = true -> ulev o = 6 /\ uq o = 7 /\ ppre t o = Some (9, LSigned).
   Proof. rewrite ppre_t. destruct o; try discriminate; auto. Qed.
 
   Lemma Sign_un o e1 : MainP (SUn o e1) -> SignP (SUn o e1).
@@ -419,7 +452,7 @@ Section Proof.
     destruct (wrapup (SUn o e1) (TSym o :: pr 7 e1) 6 7 (fun _ => True)) as [HP HM].
     - intros q. cbn [pr]. rewrite Hu, Hq. reflexivity.
     - intros q. cbn [primlike]. rewrite Hu. reflexivity.
-    - intros lvl rest res Hl _ Hr HL. cbn [app]. apply Run_expr_prefix with (p := 9); [exact Hp|].
+    - intros lvl rest res Hl _ Hr HL. cbn [app]. apply Run_expr_prefix with (p := 9) (l := LSigned); [exact Hp|].
       apply S1; auto. rewrite <- Hrs. exact HL.
     - auto.
     - auto.
@@ -435,7 +468,7 @@ Section Proof.
     - intros q. reflexivity.
     - intros q. reflexivity.
     - intros lvl rest res Hl Hh Hr HL. cbn [app].
-      apply Run_expr_prefix with (p := 4); [rewrite ppre_t; reflexivity|].
+      apply Run_expr_prefix with (p := 4) (l := LNot); [rewrite ppre_t; reflexivity|].
       exists (rs None e1), rest. split; [|exact HL].
       apply (M1 5 4); [lia | apply ifok_ge2; lia | pose proof (eff_ge 5 e1); lia
                       | apply (top_ok_of_head _ _ _ 3); [lia|exact Hh] | exact Hr
@@ -461,7 +494,7 @@ Section Proof.
     - intros q. cbn [primlike]. rewrite Hb. reflexivity.
     - intros lvl rest res _ _ Hr HL. rewrite <- app_assoc. cbn [app].
       rewrite rs_none_bin in HL.
-      eapply Run_expr_pow; [apply PL; [apply primlike9|exact I] | rewrite ppow_t; exact Hpw
+      eapply Run_expr_pow; [apply PL; [apply primlike9|exact I] | exact Hpw
                            | apply PR; [apply primlike9|apply rest_ok_nolp, Hr] | exact HL].
     - auto.
     - auto.
@@ -474,7 +507,7 @@ Section Proof.
   Qed.
 
   Lemma bin_facts o : is_binop o = true -> is_pow o = false ->
-    blev o <= lq o /\ lq o <= 9 /\ rq o = S (blev o) /\ pbin t o = Some (blev o) /\ blev o <= 7 /\ blev o <> 4
+    blev o <= lq o /\ lq o <= 9 /\ rq o = S (blev o) /\ pbin t o = Some (blev o, blabel o) /\ blev o <= 7 /\ blev o <> 4
     /\ 2 <= blev o.
   Proof.
     rewrite pbin_t. destruct o; cbn; try discriminate; intros _ _; repeat split; try lia; reflexivity.
@@ -493,7 +526,7 @@ Section Proof.
       + exact Hlq9.
       + apply ifok_ge2; lia.
       + pose proof (eff_ge (lq o) l Hlq9). lia.
-      + apply (top_ok_sym _ _ _ (blev o)); auto.
+      + apply (top_ok_sym _ _ _ (blev o) (blabel o)); auto.
       + exact Hpw.
       + eapply Loop_step; [exact Hpb | exact Hl | | exact HL].
         rewrite Hrq. apply (MR (S (blev o))).
@@ -528,52 +561,192 @@ Section Proof.
           destruct o; cbn [blev] in H7; try discriminate; lia.
   Qed.
 
-  Lemma Run_mif ts c r1 b r2 e r3 :
+  (* ---- if-expressions with elseif branches ---- *)
+  Lemma Run_mif_else acc ts c r1 b r2 e r3 :
     Run MExpression ts (RE c, TThen :: r1) -> Run MExpression r1 (RE b, TElse :: r2) ->
-    Run MExpression r2 (RE e, r3) -> Run (MIf []) ts (RL [c; b; e], r3).
+    Run MExpression r2 (RE e, r3) -> Run (MIf acc) ts (RL (acc ++ [c; b; e]), r3).
   Proof.
     intros A B C. destruct (Run3 _ _ _ _ _ _ _ _ _ A B C) as [f (A' & B' & C')].
     unf f. rewrite A', B', C'. reflexivity.
   Qed.
-  Lemma Run_if ts c r1 b r2 e r3 :
-    Run MExpression ts (RE c, TThen :: r1) -> Run MExpression r1 (RE b, TElse :: r2) ->
-    Run MExpression r2 (RE e, r3) -> Run MExpression (TIf :: ts) (RE (IfE [c] [b; e]), r3).
+  Lemma Run_mif_elseif acc ts c r1 b r2 res :
+    Run MExpression ts (RE c, TThen :: r1) -> Run MExpression r1 (RE b, TElseif :: r2) ->
+    Run (MIf (acc ++ [c; b])) r2 res -> Run (MIf acc) ts res.
   Proof.
-    intros A B C. destruct (Run_mif _ _ _ _ _ _ _ A B C) as [f H].
-    unf f. rewrite H. reflexivity.
+    intros A B C. destruct (Run3 _ _ _ _ _ _ _ _ _ A B C) as [f (A' & B' & C')].
+    unf f. rewrite A', B'. exact C'.
+  Qed.
+  Lemma Run_if_top r all r' :
+    Run (MIf []) r (RL all, r') -> Run MExpression (TIf :: r) (RE (mk_if all), r').
+  Proof. intros [f H]. unf f. rewrite H. reflexivity. Qed.
+
+  Definition elifs_toks (el : list (sexpr * sexpr)) : list tok :=
+    concat (map (fun p => let '(c', b') := p in TElseif :: pr 0 c' ++ TThen :: pr 0 b') el).
+  Definition if_body (c th : sexpr) (el : list (sexpr * sexpr)) (e : sexpr) : list tok :=
+    TIf :: pr 0 c ++ TThen :: pr 0 th ++ elifs_toks el ++ TElse :: pr 0 e.
+  Fixpoint flat (el : list (sexpr * sexpr)) : list expr :=
+    match el with [] => [] | (c', b') :: r => rs None c' :: rs None b' :: flat r end.
+
+  Lemma pr_if q c th el e :
+    pr q (SIf c th el e) = if q <=? 1 then if_body c th el e else paren (if_body c th el e).
+  Proof. reflexivity. Qed.
+  Lemma rs_if pend c th el e :
+    rs pend (SIf c th el e) =
+    wrap pend (IfE (rs None c :: map (fun p => let '(c', _) := p in rs None c') el)
+                   (rs None th :: map (fun p => let '(_, b') := p in rs None b') el ++ [rs None e])).
+  Proof. reflexivity. Qed.
+  Lemma elifs_cons c' b' el R :
+    elifs_toks ((c', b') :: el) ++ R = TElseif :: pr 0 c' ++ TThen :: pr 0 b' ++ elifs_toks el ++ R.
+  Proof.
+    unfold elifs_toks. cbn [map concat]. rewrite <- app_assoc. cbn [app]. rewrite <- app_assoc.
+    reflexivity.
+  Qed.
+  Lemma if_body_app c th el e rest :
+    if_body c th el e ++ rest =
+    TIf :: pr 0 c ++ TThen :: pr 0 th ++ elifs_toks el ++ TElse :: pr 0 e ++ rest.
+  Proof.
+    unfold if_body. cbn [app]. rewrite <- app_assoc. cbn [app]. rewrite <- app_assoc.
+    rewrite <- app_assoc. reflexivity.
   Qed.
 
-  Lemma case_if c th el : All c -> All th -> All el -> All (SIf c th el).
+  Lemma every2_cons2 {A} (a b : A) l : every2 (a :: b :: l) = a :: every2 l.
+  Proof. reflexivity. Qed.
+  Lemma every2_flat el : every2 (flat el) = map (fun p => let '(c', _) := p in rs None c') el.
   Proof.
-    intros (_ & _ & _ & EC) (_ & _ & _ & ET) (_ & _ & _ & EE).
-    assert (HE : ExprP (SIf c th el)).
-    { intros rest Hc. cbn [pr rs wrap Nat.leb app].
-      rewrite <- app_assoc. cbn [app]. rewrite <- app_assoc. cbn [app].
-      eapply Run_if; [apply EC; exact I | apply ET; exact I | apply EE; exact Hc]. }
-    assert (HP : PrimP (SIf c th el)).
-    { intros q rest Hp Hn. cbn [primlike] in Hp. cbn [pr]. destruct (q <=? 1); [discriminate|].
-      apply Prim_paren_E. apply (HE (TRp :: rest)). exact I. }
-    assert (HM : MainP (SIf c th el)).
+    induction el as [|[c' b'] el IH]; [reflexivity|].
+    cbn [flat map]. rewrite every2_cons2, IH. reflexivity.
+  Qed.
+  Lemma every2_odd el : forall x e,
+    every2 (x :: flat el ++ [e]) = x :: map (fun p => let '(_, b') := p in rs None b') el.
+  Proof.
+    induction el as [|[c' b'] el IH]; intros x e; [reflexivity|].
+    cbn [flat map app]. rewrite every2_cons2, IH. reflexivity.
+  Qed.
+  Lemma last1_last {A} (l : list A) e : last1 (l ++ [e]) = [e].
+  Proof. unfold last1. rewrite rev_app_distr. reflexivity. Qed.
+  Lemma mk_if_flat c th el e :
+    mk_if (c :: th :: flat el ++ [e]) =
+    IfE (c :: map (fun p => let '(c', _) := p in rs None c') el)
+        (th :: map (fun p => let '(_, b') := p in rs None b') el ++ [e]).
+  Proof.
+    unfold mk_if.
+    pose proof (removelast_last (c :: th :: flat el) e) as HR. cbn [app] in HR. rewrite HR.
+    pose proof (last1_last (c :: th :: flat el) e) as HL. cbn [app] in HL. rewrite HL.
+    cbn [tl]. rewrite every2_cons2, every2_flat, every2_odd. reflexivity.
+  Qed.
+
+  Lemma Run_mif_gen e rest : ExprP e -> closing rest ->
+    forall el acc c b, ExprP c -> ExprP b -> Forall (fun p => ExprP (fst p) /\ ExprP (snd p)) el ->
+    Run (MIf acc) (pr 0 c ++ TThen :: pr 0 b ++ elifs_toks el ++ TElse :: pr 0 e ++ rest)
+        (RL (acc ++ rs None c :: rs None b :: flat el ++ [rs None e]), rest).
+  Proof.
+    intros EE Hc. induction el as [|[c' b'] el IH]; intros acc c b EC EB HF.
+    - unfold elifs_toks. cbn [map concat flat app].
+      eapply Run_mif_else; [apply EC; exact I | apply EB; exact I | apply EE; exact Hc].
+    - inversion HF as [|p l0 [EC' EB'] HF']; subst. cbn [fst snd] in *.
+      rewrite elifs_cons.
+      eapply Run_mif_elseif; [apply EC; exact I | apply EB; exact I | ].
+      cbn [flat app].
+      replace (acc ++ rs None c :: rs None b :: rs None c' :: rs None b' :: flat el ++ [rs None e])
+        with ((acc ++ [rs None c; rs None b]) ++ rs None c' :: rs None b' :: flat el ++ [rs None e])
+        by (rewrite <- app_assoc; reflexivity).
+      apply IH; auto.
+  Qed.
+
+  Lemma case_if c th el e :
+    All c -> All th -> Forall (fun p => All (fst p) /\ All (snd p)) el -> All e -> All (SIf c th el e).
+  Proof.
+    intros (_ & _ & _ & EC) (_ & _ & _ & ET) HF (_ & _ & _ & EE).
+    assert (HF' : Forall (fun p => ExprP (fst p) /\ ExprP (snd p)) el).
+    { eapply Forall_impl; [|exact HF]. intros p [(_ & _ & _ & A) (_ & _ & _ & B)]. split; assumption. }
+    assert (HB : forall rest, closing rest ->
+                 Run MExpression (if_body c th el e ++ rest) (RE (rs None (SIf c th el e)), rest)).
+    { intros rest Hc. rewrite if_body_app, rs_if. cbn [wrap]. rewrite <- mk_if_flat.
+      apply Run_if_top. apply (Run_mif_gen e rest EE Hc el [] c th EC ET HF'). }
+    assert (HE : ExprP (SIf c th el e)).
+    { intros rest Hc. rewrite pr_if. cbn [Nat.leb]. apply HB, Hc. }
+    assert (HP : PrimP (SIf c th el e)).
+    { intros q rest Hp Hn. cbn [primlike] in Hp. rewrite pr_if. destruct (q <=? 1); [discriminate|].
+      apply Prim_paren_E. apply HB. exact I. }
+    assert (HM : MainP (SIf c th el e)).
     { intros q lvl rest res _ Hi _ _ Hr HL. apply Main_of_Prim; auto.
       cbn [ifok] in Hi. cbn [primlike]. destruct (Nat.leb_spec q 1); [lia|reflexivity]. }
     split; [exact HP|]. split; [exact HM|]. split; [|exact HE].
     apply Sign_of_Main; [exact HM | intros; reflexivity | reflexivity | intros; exact I].
   Qed.
 
-  Lemma all_ok e : wf e = true -> All e.
+  (* ---- function calls ---- *)
+  Lemma Run_args_last acc ts e r :
+    Run MExpression ts (RE e, TRp :: r) -> Run (MArgs acc) ts (RL (acc ++ [e]), r).
+  Proof. intros [f H]. unf f. rewrite H. reflexivity. Qed.
+  Lemma Run_args_comma acc ts e r res :
+    Run MExpression ts (RE e, TComma :: r) -> Run (MArgs (acc ++ [e])) r res -> Run (MArgs acc) ts res.
   Proof.
-    induction e as [a | e1 IH1 | o e1 IH1 | o l IHl r IHr | c IHc th IHt el IHe];
-      cbn [wf]; intros Hw.
-    - apply case_atom.
-    - apply case_par; auto.
-    - apply andb_true_iff in Hw. destruct Hw as [Hu Hw].
+    intros A B. destruct (Run2 _ _ _ _ _ _ A B) as [f [A' B']]. unf f. rewrite A'. exact B'.
+  Qed.
+  Lemma Run_primary_call f r a r' :
+    Run (MArgs []) r (RL a, r') -> Run MPrimary (ftoks f ++ r) (RE (Call f a), r').
+  Proof. intros [n H]. destruct f; cbn [ftoks app]; unf n; rewrite H; reflexivity. Qed.
+
+  Lemma Run_args rest : forall args acc, args <> [] -> Forall ExprP args ->
+    Run (MArgs acc) (join (map (pr 0) args) ++ TRp :: rest) (RL (acc ++ map (rs None) args), rest).
+  Proof.
+    induction args as [|a args IH]; intros acc Hne HF; [contradiction|].
+    inversion HF as [|x l0 EA HF']; subst.
+    destruct args as [|a2 args].
+    - cbn [map join]. apply Run_args_last. apply EA. exact I.
+    - change (join (map (pr 0) (a :: a2 :: args)))
+        with (pr 0 a ++ TComma :: join (map (pr 0) (a2 :: args))).
+      rewrite <- app_assoc. cbn [app].
+      eapply Run_args_comma; [apply EA; exact I|].
+      replace (acc ++ map (rs None) (a :: a2 :: args))
+        with ((acc ++ [rs None a]) ++ map (rs None) (a2 :: args))
+        by (rewrite <- app_assoc; reflexivity).
+      apply IH; [discriminate|exact HF'].
+  Qed.
+
+  Lemma case_call f args : args <> [] -> Forall All args -> All (SCall f args).
+  Proof.
+    intros Hne HF.
+    assert (HF' : Forall ExprP args).
+    { eapply Forall_impl; [|exact HF]. intros a (_ & _ & _ & A). exact A. }
+    assert (HP : PrimP (SCall f args)).
+    { intros q rest _ Hn.
+      change (pr q (SCall f args)) with (ftoks f ++ join (map (pr 0) args) ++ [TRp]).
+      change (rs None (SCall f args)) with (Call f (map (rs None) args)).
+      rewrite <- app_assoc. rewrite <- app_assoc. cbn [app].
+      apply Run_primary_call. apply (Run_args rest args [] Hne HF'). }
+    assert (HM : MainP (SCall f args)).
+    { intros q lvl rest res _ _ _ _ Hr HL. apply Main_of_Prim; auto. }
+    split; [exact HP|]. split; [exact HM|]. split.
+    - apply Sign_of_Main; [exact HM | intros; reflexivity | reflexivity | intros; exact I].
+    - apply Expr_of_Main; [intros; exact I | exact HM].
+  Qed.
+
+  Lemma all_ok : forall e, wf e = true -> All e.
+  Proof.
+    apply (sexpr_ind' (fun e => wf e = true -> All e)); cbv beta; cbn [wf].
+    - intros a _. apply case_atom.
+    - intros e1 IH1 Hw. apply case_par; auto.
+    - intros o e1 IH1 Hw. apply andb_true_iff in Hw. destruct Hw as [Hu Hw].
       destruct (is_sign o) eqn:Hs.
       + apply case_sign; auto.
       + assert (o = SNot) by (destruct o; try discriminate; reflexivity). subst o.
         apply case_not; auto.
-    - rewrite !andb_true_iff in Hw. destruct Hw as [[Hb Hwl] Hwr].
+    - intros o l r IHl IHr Hw. rewrite !andb_true_iff in Hw. destruct Hw as [[Hb Hwl] Hwr].
       destruct (is_pow o) eqn:Hp; [apply case_pow | apply case_bin]; auto.
-    - rewrite !andb_true_iff in Hw. destruct Hw as [[Hwc Hwt] Hwe]. apply case_if; auto.
+    - intros c th el e IHc IHt IHel IHe Hw. rewrite !andb_true_iff in Hw.
+      destruct Hw as [[[Hwc Hwt] Hwel] Hwe].
+      apply case_if; [auto | auto | | auto].
+      rewrite Forall_forall in IHel. rewrite forallb_forall in Hwel.
+      apply Forall_forall. intros [c' b'] Hin.
+      specialize (Hwel _ Hin). cbn beta iota in Hwel. apply andb_true_iff in Hwel. destruct Hwel as [W1 W2].
+      destruct (IHel _ Hin) as [A B]. cbn [fst snd] in *. split; [apply A | apply B]; assumption.
+    - intros f args IH Hw. apply andb_true_iff in Hw. destruct Hw as [Hne Hall].
+      apply case_call.
+      + destruct args; [discriminate Hne | discriminate].
+      + rewrite Forall_forall in IH. rewrite forallb_forall in Hall.
+        apply Forall_forall. intros a Hin. apply IH; auto.
   Qed.
 
   (* ---- STEP 3 ---- *)
@@ -584,19 +757,24 @@ Section Proof.
   Qed.
 End Proof.
 
-Theorem roundtrip (t : table) (e : sexpr) :
-  tab_ok t = true -> wf e = true ->
-  exists fuel, parse_antlr t fuel (pr 0 e) = Some (resign e).
+Lemma listener_ok_eq lt : listener_ok lt = true -> lt = std_lt.
+Proof. unfold listener_ok. destruct (ltable_eq_dec lt std_lt); [auto|discriminate]. Qed.
+
+Theorem roundtrip (t : table) (lt : ltable) (e : sexpr) :
+  tab_ok t = true -> listener_ok lt = true -> wf e = true ->
+  exists fuel, parse_antlr t lt fuel (pr 0 e) = Some (resign e).
 Proof.
-  intros Ht Hw. destruct (roundtrip_run t Ht e Hw) as [f H].
+  intros Ht Hl Hw. apply listener_ok_eq in Hl. subst lt.
+  destruct (roundtrip_run t Ht e Hw) as [f H].
   exists f. unfold parse_antlr. rewrite H. reflexivity.
 Qed.
 
-Theorem roundtrip_fuel (t : table) (e : sexpr) :
-  tab_ok t = true -> wf e = true ->
-  exists fuel, forall F, fuel <= F -> parse_antlr t F (pr 0 e) = Some (resign e).
+Theorem roundtrip_fuel (t : table) (lt : ltable) (e : sexpr) :
+  tab_ok t = true -> listener_ok lt = true -> wf e = true ->
+  exists fuel, forall F, fuel <= F -> parse_antlr t lt F (pr 0 e) = Some (resign e).
 Proof.
-  intros Ht Hw. destruct (roundtrip_run t Ht e Hw) as [f H].
+  intros Ht Hl Hw. apply listener_ok_eq in Hl. subst lt.
+  destruct (roundtrip_run t Ht e Hw) as [f H].
   exists f. intros F HF. unfold parse_antlr. rewrite (run_mono t f F HF _ _ _ H). reflexivity.
 Qed.
 
